@@ -46,6 +46,10 @@ func ctrlAlgYaml(in ctrlIn) string {
 	panic("unknown cfg_alg " + in.CfgAlg)
 }
 
+// ctrlSibling is a second fan of the same configuration with the SAME control-algorithm spelling: its control loop,
+// obtained from the same initializeFanControllers call, is cycled by the driver between the cycles of the fan under
+// test with unrelated targets. Control loops are per fan, so this must not influence the fan under test.
+var ctrlSibling control_loop.ControlLoop
 
 func ctrlLoopFromConfig(dir string, in ctrlIn, fan fans.Fan) control_loop.ControlLoop {
 	saved := configuration.CurrentConfig
@@ -56,7 +60,9 @@ func ctrlLoopFromConfig(dir string, in ctrlIn, fan fans.Fan) control_loop.Contro
 	}()
 	path := filepath.Join(dir, "fan2go.yaml")
 	yaml := "dbPath: " + filepath.Join(dir, "fan2go.db") + "\nfans:\n  - id: f\n    curve: stub\n    file:\n      path: " +
-		filepath.Join(dir, "cfgpwm") + "\n" + ctrlAlgYaml(in)
+		filepath.Join(dir, "cfgpwm") + "\n" + ctrlAlgYaml(in) +
+		"  - id: sibling\n    curve: stub\n    file:\n      path: " + filepath.Join(dir, "sibpwm") + "\n" + ctrlAlgYaml(in)
+	_ = os.WriteFile(filepath.Join(dir, "sibpwm"), []byte("0"), 0o644)
 	if err := os.WriteFile(path, []byte(yaml), 0o644); err != nil {
 		panic(err)
 	}
@@ -66,13 +72,18 @@ func ctrlLoopFromConfig(dir string, in ctrlIn, fan fans.Fan) control_loop.Contro
 		panic("cfg_alg: read: " + err.Error())
 	}
 	configuration.LoadConfig()
-	if len(configuration.CurrentConfig.Fans) != 1 {
-		panic("cfg_alg: expected one fan entry")
+	if len(configuration.CurrentConfig.Fans) != 2 {
+		panic("cfg_alg: expected two fan entries")
+	}
+	sibCfg := configuration.CurrentConfig.Fans[1]
+	sibFan, err := fans.NewFan(sibCfg)
+	if err != nil {
+		panic("cfg_alg: sibling: " + err.Error())
 	}
 	reg := prometheus.NewRegistry()
 	prometheus.DefaultRegisterer, prometheus.DefaultGatherer = reg, reg
 	curves.RegisterSpeedCurve(&ctrlStubCurve{})
-	ctrls, err := internal.VerifInitializeFanControllers(nil, map[configuration.FanConfig]fans.Fan{configuration.CurrentConfig.Fans[0]: fan})
+	ctrls, err := internal.VerifInitializeFanControllers(nil, map[configuration.FanConfig]fans.Fan{configuration.CurrentConfig.Fans[0]: fan, sibCfg: sibFan})
 	if err != nil {
 		panic("cfg_alg: " + err.Error())
 	}
@@ -83,6 +94,10 @@ func ctrlLoopFromConfig(dir string, in ctrlIn, fan fans.Fan) control_loop.Contro
 	loop := dc.VerifControlLoop()
 	if loop == nil {
 		panic("cfg_alg: no control loop selected")
+	}
+	ctrlSibling = nil
+	if sc, ok := ctrls[sibFan].(*controller.DefaultFanController); ok {
+		ctrlSibling = sc.VerifControlLoop()
 	}
 	return loop
 }
